@@ -444,6 +444,50 @@ theorem loop_shapes :
       ["poll", "run", "run", "flush", "wait", "clear", "poll_with"] := by
   decide
 
+/-! ### wake-consuming sites
+
+`Driver::flush` and `AwakeFlag::reset` CONSUME a notification (the flag goes back to IDLE) and report it in their
+result. Whoever calls them must act on the bit — `Driver::poll` skips the kernel wait, `flush` hands it to its caller,
+compio-compat's loop uses a zero timeout — otherwise a wake recorded only as NOTIFIED is thrown away and the next
+`poll` sleeps (seed C03-4b: `Runtime::unregister_files/personality` calling `driver.flush();`). The extractor lists every
+call site in the runtime / driver front ends, the three driver back ends and compio-compat with what happens to the
+returned bit. -/
+
+/-- no site discards a consumed notification: every `flush()` / `reset()` result is returned to the caller or used in an
+expression (never a statement-position call, never `let _ =`) -/
+theorem no_site_discards_notification :
+    WakeOrder.flushSites.all (fun c => c.2.2 == "returned" || c.2.2 == "used") = true := by
+  decide
+
+/-- and the sites are exactly these (a new wake-consuming site has to be looked at: in the model only `Driver::poll`
+(`reset`), `flush` (`xreset`, result into the loop's timeout) reset the flag) -/
+theorem flush_sites_known :
+    WakeOrder.flushSites =
+      [("compio-runtime/src/lib.rs::flush", "flush", "returned"),
+       ("compio-driver/src/lib.rs::flush", "flush", "returned"),
+       ("compio-driver/src/sys/driver/fusion/mod.rs::flush", "flush", "used"),
+       ("compio-driver/src/sys/driver/fusion/mod.rs::flush", "flush", "used"),
+       ("compio-driver/src/sys/driver/iour/mod.rs::flush", "reset", "used"),
+       ("compio-driver/src/sys/driver/iour/mod.rs::poll", "reset", "used"),
+       ("compio-driver/src/sys/driver/iour/notify.rs::reset", "reset", "returned"),
+       ("compio-driver/src/sys/driver/iour/notify.rs::reset", "reset", "returned"),
+       ("compio-driver/src/sys/driver/poll/mod.rs::flush", "reset", "returned"),
+       ("compio-driver/src/sys/driver/poll/mod.rs::poll", "reset", "used"),
+       ("compio-driver/src/sys/driver/poll/mod.rs::reset", "reset", "returned"),
+       ("compio-compat/src/lib.rs::drive", "flush", "used")] := by
+  decide
+
+/-- in the model the flag is reset only by the two steps that act on the result: `reset` (sets `needWait`) and
+`xreset` (feeds the loop's timeout); every other step of the runtime thread leaves the NOTIFIED bit alone or sets it,
+except `set_awake`, which is followed by a poll of the main future and a drain before any wait -/
+theorem only_poll_and_flush_reset_the_flag (s s' : State) (e : RtEv) (h : rtStep s e = some s') (hf : s.flag ≤ 3)
+    (hb : nbit s.flag = true) (hn : nbit s'.flag = false) :
+    s.rt = .reset ∨ s.rt = .xreset ∨ s.rt = .setAwake1 ∨ s.rt = .setAwake2 := by
+  have hw := wake_nbit hf
+  rt_step h
+  all_goals (try simp only [subPending, dropTask, startPoll, kWrite, overflowPush, doSubmit] at hn)
+  all_goals (first | (simp_all; done) | (exfalso; simp_all))
+
 /-! ### memory orderings
 
 The proofs above are for sequentially consistent atomics. What the SC argument uses: every access to the flag
